@@ -465,7 +465,7 @@ func init() {
 	register(&propertySpec{
 		ID:      "C07",
 		Explain: "Static gate / provenance rules for expiry: stored items reach results only behind the not-expired edge of the purge helper, the purge helper reports expiry truthfully even when the clean-up fails, writes are refused before anything is stored when PrepareFact rejects them, the expiry instant is canonicalised at write time and what is persisted carries it. Does not decide the boundary comparison (<= vs <), the arithmetic or timing.",
-		Rules:   []ruleFn{ruleExpGuard, ruleExpTruth, ruleExpReject, ruleExpCanon, rulePersistPrepared("C07"), ruleExpTtlConsumed, ruleClockAfterLock, ruleExpAbsolute, ruleExpTTLRelative, ruleExpCanonFirst, ruleExpParseExact, ruleExpTypesAgree, ruleClockUnits("C07"), rulePurgeRecheck("C07")},
+		Rules:   []ruleFn{ruleExpCachedGuard("C07"), ruleExpGuard, ruleExpTruth, ruleExpReject, ruleExpCanon, rulePersistPrepared("C07"), ruleExpTtlConsumed, ruleClockAfterLock, ruleExpAbsolute, ruleExpTTLRelative, ruleExpCanonFirst, ruleExpParseExact, ruleExpTypesAgree, ruleClockUnits("C07"), rulePurgeRecheck("C07")},
 	})
 }
 
